@@ -173,8 +173,19 @@ pub struct C10Scn {
 
 /// A = B (two parallel channels 0 and 1), B – C (2), B – D (3): a forwarder with two channels to the
 /// same upstream peer and two downstream peers.
-fn fork_world(ct: Ct) -> (World, Vec<ChannelId>) {
-	let mut w = World::new((0..4).map(|_| crate::checks::c01::user_config(ct)).collect(), 253);
+fn fork_world(ct: Ct, intercept: bool) -> (World, Vec<ChannelId>) {
+	let mut cfgs: Vec<lightning::util::config::UserConfig> = (0..4).map(|_| crate::checks::c01::user_config(ct)).collect();
+	if intercept {
+		// B is an LSP: it intercepts the last hop, takes 1000 msat more than its advertised fee, and its clients accept that
+		cfgs[1].htlc_interception_flags = 1;
+		cfgs[2].channel_config.accept_underpaying_htlcs = true;
+		cfgs[3].channel_config.accept_underpaying_htlcs = true;
+	}
+	let mut w = World::new(cfgs, 253);
+	if intercept {
+		w.intercept_via = Some(1);
+		w.intercept_skim_msat = Some(1000);
+	}
 	let mut chans = Vec::new();
 	for (a, b) in [(0usize, 1usize), (0, 1), (1, 2), (1, 3)] {
 		chans.push(w.open_channel(a, b, 1_000_000, 400_000_000));
@@ -186,7 +197,7 @@ fn fork_world(ct: Ct) -> (World, Vec<ChannelId>) {
 }
 
 pub fn build(s: &C10Scn) -> WorldSys {
-	let (w, chans) = if s.name.contains("-fork-") { fork_world(s.ct) } else { line_world(s.ct, s.nodes, &s.async_from_start) };
+	let (w, chans) = if s.name.contains("-fork-") { fork_world(s.ct, s.name.contains("intercept")) } else { line_world(s.ct, s.nodes, &s.async_from_start) };
 	let infos = chan_infos(&w, &chans);
 	let po = PersistOrderOracle::new(&w, infos.clone());
 	let rev = RevocationOracle::new(&w, infos.clone());
@@ -323,6 +334,25 @@ pub fn scenarios(tier: Tier) -> Vec<C10Scn> {
 			dev: Deviations { reorder: None, early_op: None, crash: Some(1), crash_inside: if th { Some(1) } else { None }, complete_reorder: None, ..Deviations::default() },
 			k: 1,
 			crash_nodes: vec![1],
+			async_from_start: vec![],
+		});
+		// the same with B acting as an intercepting LSP that skims a fee (its clients accept underpaying HTLCs):
+		// the second payment waits as HTLCIntercepted / PaymentClaimable while B or the recipient D crashes at any
+		// point; D lets timer ticks pass before it claims
+		v.push(C10Scn {
+			name: format!("{}-fork-intercept-skim-hold-ticks-claim", n),
+			ct,
+			nodes: 4,
+			ops: vec![
+				Op::Send { from: 0, hops: vec![(1, 0), (2, 2)], amount_msat: 50_000_000, policy: ClaimPolicy::Hold },
+				Op::ForceClose { node: 1, chan: 2 },
+				Op::Send { from: 0, hops: vec![(1, 1), (3, 3)], amount_msat: 30_000_000, policy: ClaimPolicy::Hold },
+				Op::Ticks { node: 3, n: 3 },
+				Op::ClaimHeld { pay: 1 },
+			],
+			dev: Deviations { reorder: None, early_op: None, crash: Some(1), crash_inside: None, complete_reorder: None, ..Deviations::default() },
+			k: 1,
+			crash_nodes: vec![1, 3],
 			async_from_start: vec![],
 		});
 		// asynchronous writes in flight at the crash: every candidate snapshot
